@@ -162,6 +162,10 @@ def s2_guards(ctx):
         ok = any(is_neg_test(c) and not v for c, v, _ in p.conds)
         ctx.require(ok, 'C10.S2', 'sizing runs only after the weights were validated and normalised [%s]' % cond_str(p)[:60], ctx.fn(CN + '.__call__').site(), key='C10.S2|normalise-first')
         seen_raise = False
+        if not any(b['price'] for b in s['bodies']):
+            # no price lookup was read on any body path (the price arrives by a route this rule does not follow): nothing to place the NaN check against
+            ctx.undecided('C10.S2', 'an unavailable (NaN) price is rejected with ValueError', s['loop'].site, 'no price lookup was read on the sizing paths')
+            continue
         for b in s['bodies']:
             bp = b['path']
             nan = None
